@@ -251,4 +251,23 @@ theorem d9_repaired : twoReferrers true = .ok ((1, 42), (2, 42)) := by rfl
 example : resolve true (fun k => if k = 3 then some (.inl 4) else if k = 4 then some (.inl 3) else none) 10 [] [] 1 3
     = .error (.cycle 3) := by rfl
 example : resolve true (fun k => some (.inl (k + 1))) 5 [] [] 1 0 = .error .depth := by rfl
+/-! line protocol: `refs <depth> <env: k=r<k'> | k=p<payload>, …> <referrers: name:k, …>` — the repaired resolver
+    threaded over the referrers in the given order, each with a fresh depth counter and in-progress set -/
+def parseEnv (s : String) : Nat → Option Raw :=
+  let entries := if s == "-" then [] else (s.splitOn ",").filterMap fun e =>
+    match e.splitOn "=" with
+    | [k, v] => if v.startsWith "r" then some (k.toNat!, (Sum.inl (v.drop 1).toString.toNat! : Raw))
+                else some (k.toNat!, (Sum.inr (v.drop 1).toString.toNat! : Raw))
+    | _ => none
+  fun k => (entries.find? (·.1 == k)).map (·.2)
+def showErr : Err → String
+  | .missing _ => "err:missing" | .depth => "err:depth" | .cycle _ => "err:cycle"
+def refsLine (line : String) : String :=
+  match (line.splitOn " ").filter (· ≠ "") with
+  | [d, env, refs] =>
+    let rs := (refs.splitOn ",").filterMap fun e => match e.splitOn ":" with | [n, k] => some (n.toNat!, k.toNat!) | _ => none
+    match resolveAll true (parseEnv env) d.toNat! [] rs with
+    | .error e => showErr e
+    | .ok hs => "ok " ++ ",".intercalate (hs.map fun h => s!"{h.1}:{h.2}")
+  | _ => "bad"
 end RefChain
